@@ -95,7 +95,7 @@ def main(argv):
                 seed = base * 10_000_000 + i
                 faulthandler.dump_traceback_later(float(cfg.get("per_seed_s", 300)), exit=True)
                 ts = _perf()
-                res = mod.run_seed(seed, dict(ctx, role=role))
+                res = mod.run_seed(seed, dict(ctx, role=role, want_sample=(done < 3 and role == 0)))
                 faulthandler.cancel_dump_traceback_later()
                 res["seed"] = seed
                 res["role"] = role
